@@ -43,6 +43,28 @@ func sliceSubject(t *rapid.T, n int) jv.Val {
 	return jv.VArr(a)
 }
 
+// longSubject builds an array or a mixed-width string of length n from one
+// drawn offset (long subjects are not drawn element by element).
+func longSubject(t *rapid.T, n int) jv.Val {
+	off := rapid.IntRange(0, 96).Draw(t, "longoff")
+	if rapid.Bool().Draw(t, "isString") {
+		rs := make([]rune, n)
+		for i := range rs {
+			rs[i] = mixedRunes[(i*7+off)%len(mixedRunes)]
+		}
+		return jv.VStr(string(rs))
+	}
+	a := make([]jv.Val, n)
+	for i := range a {
+		if (i+off)%97 == 5 {
+			a[i] = jv.VNull()
+		} else {
+			a[i] = jv.VInt(int64(i))
+		}
+	}
+	return jv.VArr(a)
+}
+
 func optHostile(t *rapid.T, label string, n int) *int64 {
 	if rapid.IntRange(0, 3).Draw(t, label+"-absent") == 0 {
 		return nil
@@ -88,7 +110,21 @@ func TestC12_Slice(t *testing.T) {
 	}
 	check(t, func(t *rapid.T) {
 		n := rapid.IntRange(0, maxN).Draw(t, "n")
-		subj := sliceSubject(t, n)
+		var subj jv.Val
+		switch lk := rapid.IntRange(0, 999).Draw(t, "longkind"); {
+		case lk < 100:
+			// subjects around the limits of the 8-bit kinds, so that a bound of
+			// 127, 128, 255 or 256 lies inside the subject
+			n = gen.Pick(t, "n8", []int{126, 127, 128, 129, 130, 150, 254, 255, 256, 257, 258, 300})
+			subj = longSubject(t, n)
+			c.Label("subject-around-8-bit-limits")
+		case lk == 100:
+			n = gen.Pick(t, "n16", []int{32766, 32767, 32768, 32769, 32770, 65534, 65535, 65536, 65537, 65540})
+			subj = longSubject(t, n)
+			c.Label("subject-around-16-bit-limits")
+		default:
+			subj = sliceSubject(t, n)
+		}
 		s := ast.Step{Kind: ast.SSlice, Start: optHostile(t, "start", n), Stop: optHostile(t, "stop", n)}
 		if rapid.IntRange(0, 2).Draw(t, "hasStep") > 0 {
 			st := gen.HostileInt(t, 3)
